@@ -79,10 +79,15 @@ CHECKS = {
              "as the per-file inductive step (allocation while-loop invariant + variant, callee pre-conditions at each call site, FAT chain, "
              "frame, directory slot).  BOUNDED: whole-image consistency with an independent Disk BASIC checker on the enumerated family of "
              "C07.", "DESIGN 4 C08, 12", TECHB),
-    "C09": C("other", "BOUNDED stand-in for the history quantifier: open/add/save/re-open sessions through VirtualFile on the ghost filesystem "
-             "(up to 4 additions, boundary lengths, symbolic contents for cassette and short disk files), CLI --append sequences, and kind "
-             "recognition of tool-written images of every size class.  Per-step contracts come from C14 / C06 / C07 / C08.",
-             "DESIGN 4 C09, 12", TECHB),
+    "C09": C("other", "Unbounded, per addition (the step of the history induction): CassetteFile.add_file leaves the prior buffer untouched and "
+             "every instance of read_file's pre-condition is stable under extension (tape_bridge, DESIGN 12.14); DiskFile.add_file leaves every "
+             "byte of a granule, directory entry or table entry that was not free untouched, and with that frame the directory entry, chain "
+             "links, reader pre-conditions and every stream byte of each stored file are the same afterwards (disk_addfile + disk_bridge, "
+             "DESIGN 12.18); the writers do not modify the CoCoFile they are given (frame clauses).  The induction wrapper and the "
+             "save / re-open step are NOT machine-checked.  BOUNDED stand-in for them: open/add/save/re-open sessions through VirtualFile on the "
+             "ghost filesystem (up to 4 additions, boundary lengths, mixed kinds, symbolic contents for cassette and short disk files), CLI "
+             "--append sequences, and kind recognition of tool-written images of every size class.",
+             "DESIGN 4 C09, 12.14, 12.18", TECHB),
     "C10": C("other", "The finite configuration matrix {bin,cas,dsk} x {append,no append} x {absent, empty, cassette, disk, raw, arbitrary, "
              "cassette >= 161,280 bytes} is enumerated COMPLETELY through assembler.main and file_util.main executed by the AST interpreter on "
              "a ghost filesystem (every write observed), target bytes compared before/after, images parsed by independent readers.  "
